@@ -692,9 +692,17 @@ impl Drop for ResumeClock {
 /// Several fibers interleave, so only interleaving-independent facts are printed and checked.
 fn run_spec(pol: Pol, idem: bool, w2: &str, outs: &str, ctx: &mut Ctx) -> String {
     let p: Vec<&str> = w2.split('/').collect();
-    if p.len() != 3 {
+    // optional 4th part: a client-side request timeout (ms) around all the fibers
+    if p.len() != 3 && p.len() != 4 {
         return "bad-case".to_owned();
     }
+    let tmo: Option<u64> = match p.get(3) {
+        Some(t) => match t.parse::<u64>() {
+            Ok(t) if t <= 1_000_000 => Some(t),
+            _ => return "bad-case".to_owned(),
+        },
+        None => None,
+    };
     let (Some(cl0), Ok(m)) = (parse_cl(p[0]), p[2].parse::<usize>()) else { return "bad-case".to_owned() };
     if m > 8 {
         return "bad-case".to_owned();
@@ -736,6 +744,8 @@ fn run_spec(pol: Pol, idem: bool, w2: &str, outs: &str, ctx: &mut Ctx) -> String
     let log: RefCell<Vec<(usize, usize, Consistency)>> = RefCell::new(Vec::new());
     let finished: RefCell<Vec<bool>> = RefCell::new(Vec::new());
     let calls = Cell::new(0usize);
+    let t0: Cell<Option<tokio::time::Instant>> = Cell::new(None);
+    let started_at: RefCell<Vec<u64>> = RefCell::new(Vec::new());
     let spans = Arc::new(FiberSpans::default());
     let dispatch = tracing::Dispatch::new(ArcSubscriber(Arc::clone(&spans)));
     let result = ENV.with(|env| {
@@ -746,9 +756,12 @@ fn run_spec(pol: Pol, idem: bool, w2: &str, outs: &str, ctx: &mut Ctx) -> String
             retry_policy: &policy,
             load_balancing_policy: &env.lbp,
             speculative_policy: Some(&spec),
-            request_timeout: None,
+            request_timeout: tmo.map(std::time::Duration::from_millis),
         };
         let run_once = |target: usize, cl: Consistency| {
+            if let Some(t0) = t0.get() {
+                started_at.borrow_mut().push(t0.elapsed().as_millis() as u64);
+            }
             log.borrow_mut().push((spans.current_fiber(), target, cl));
             finished.borrow_mut().push(false);
             let k = calls.get();
@@ -769,6 +782,7 @@ fn run_spec(pol: Pol, idem: bool, w2: &str, outs: &str, ctx: &mut Ctx) -> String
             env.rt.block_on(async {
                 tokio::time::pause();
                 let _resume = ResumeClock;
+                t0.set(Some(tokio::time::Instant::now()));
                 hooks::run_request_calls(params, &env.conn, plan.clone(), run_once).await
             })
         })
@@ -803,6 +817,15 @@ fn run_spec(pol: Pol, idem: bool, w2: &str, outs: &str, ctx: &mut Ctx) -> String
             match outcomes.get(i) {
                 Some((Some(e), _)) if proves_not_applied(e) => {}
                 _ => ctx.fail(format!("non-idempotent request re-sent (attempt {}) after attempt {} which does not prove non-application", i + 1, i)),
+            }
+        }
+    }
+    if let Some(tmo) = tmo {
+        // every relative timer of the driver / the script is rounded up to tokio's 1 ms tick: allow that drift
+        let slack = 2 + n as u64 + m as u64;
+        for (i, at) in started_at.borrow().iter().enumerate() {
+            if *at > tmo + slack {
+                ctx.fail(format!("attempt {} was started at {} ms, after the request timeout of {} ms", i, at, tmo));
             }
         }
     }
@@ -1522,7 +1545,9 @@ pub fn generate(rng: &mut Rng, tier: Tier, emit: &mut dyn FnMut(String)) {
             })
             .collect();
         let cl0 = if rng.chance(1, 10) { "serial" } else { *rng.pick(&["quorum", "eachquorum", "all", "one"]) };
-        emit(format!("spec {}/{} {}/{}/{} {}", pol.name(), if idem { "i" } else { "n" }, cl0, ps, m, outs.join(";")));
+        // a third of them under a client-side request timeout that cuts all the fibers
+        let tm = if rng.chance(1, 3) { format!("/{}", *rng.pick(&[0u64, 50, 100, 150, 250, 400, 700, 1200])) } else { String::new() };
+        emit(format!("spec {}/{} {}/{}/{}{} {}", pol.name(), if idem { "i" } else { "n" }, cl0, ps, m, tm, outs.join(";")));
     }
 
     // (e) the client-side request timeout: attempts of 7..377 virtual ms against deadlines around their sums
@@ -1568,12 +1593,12 @@ pub fn generate(rng: &mut Rng, tier: Tier, emit: &mut dyn FnMut(String)) {
     }
     // (f) frame level, end to end (harness/src/e2e/retry.rs with UNPREPARED answers): a real Session against the mock
     //     cluster; the k-th statement frame of a request is answered with the k-th outcome of its script
-    for i in 0..(if quick { 60 } else { 600 }) {
+    for i in 0..(if quick { 160 } else { 1600 }) {
         let n = 1 + rng.below(3);
         let pol = *rng.pick(&["def", "def", "down", "fall"]);
         let idem = if i % 3 == 2 { 1 } else { 0 };
-        let kind = *rng.pick(&["exec", "exec", "batch", "batch", "query"]);
-        let via = if i % 4 == 1 { "caching" } else { "session" };
+        let kind = *rng.pick(&["exec", "exec", "batch", "batch", "query", "qvals", "qvals", "batchv", "batchv"]);
+        let via = if i % 4 == 1 && kind != "qvals" && kind != "batchv" { "caching" } else { "session" };
         let cl = if pol == "def" && rng.chance(1, 8) { *rng.pick(&["serial", "localserial"]) } else { "q" };
         let n_req = 3 + rng.below(3);
         let mut scripts = Vec::new();
@@ -1584,7 +1609,7 @@ pub fn generate(rng: &mut Rng, tier: Tier, emit: &mut dyn FnMut(String)) {
                 let o = if k + 1 == len && rng.bool() {
                     "ok"
                 } else if rng.chance(2, 5) {
-                    "unp"
+                    if rng.chance(1, 5) { "unpx" } else { "unp" }
                 } else if rng.chance(1, 2) {
                     *rng.pick(&["un", "bs", "rt", "rtd"])
                 } else {
@@ -1595,7 +1620,15 @@ pub fn generate(rng: &mut Rng, tier: Tier, emit: &mut dyn FnMut(String)) {
                     break;
                 }
             }
-            scripts.push(sv.join("."));
+            let mut sc = sv.join(".");
+            // answers to the PREPARE frames sent during the request (re-prepare after UNPREPARED, the per-attempt
+            // PREPARE of qvals / batchv): ok with another id, errors, a closed connection
+            if via == "session" && rng.chance(1, 2) {
+                let np = 1 + rng.below(4);
+                let pv: Vec<&str> = (0..np).map(|_| *rng.pick(&["p", "p", "p", "pc", "pov", "pbs", "pcl"])).collect();
+                sc = format!("{}~{}", sc, pv.join("."));
+            }
+            scripts.push(sc);
         }
         emit(format!(
             "wire retry n={} sh=0 pol={} idem={} kind={} cl={} via={} seed={} scripts={}",
